@@ -40,12 +40,18 @@ def pad_variant(n, x, align):
 
 
 def guard_rem_positive(an, st, x_norm, align_norm):
-    """truth of (x % align > 0) on this path, located by normal form"""
+    """truth of (x % align > 0) on this path, located by normal form; `rem > 0`, `rem != 0` and `rem == 0` are the same test on an unsigned value"""
+    want = ("Rem", x_norm, align_norm)
     for f in st.facts:
-        if f[0] in ("true", "false") and f[1].op == "bin" and f[1].args[0] == "Lt":
-            a, b = f[1].args[1], f[1].args[2]
-            if a.op == "const" and a.args[1] == 0 and norm(b) == ("Rem", x_norm, align_norm):
+        if f[0] in ("true", "false") and f[1].op == "bin" and f[1].args[0] in ("Lt", "Eq", "Ne"):
+            o, a, b = f[1].args[0], f[1].args[1], f[1].args[2]
+            zero = lambda z: z.op == "const" and z.args[1] == 0
+            if o == "Lt" and zero(a) and norm(b) == want:
                 return f[0] == "true"
+            if o in ("Eq", "Ne") and ((zero(a) and norm(b) == want) or (zero(b) and norm(a) == want)):
+                return (f[0] == "true") == (o == "Ne")
+        if f[0] in ("eq", "ne") and f[2] == 0 and isinstance(f[1], type(T.param(1))) and norm(f[1]) == want:
+            return f[0] == "ne"
     return None
 
 
